@@ -3,6 +3,7 @@ package main
 import (
 	"fmt"
 	"go/types"
+	"strconv"
 
 	"golang.org/x/tools/go/ssa"
 )
@@ -81,6 +82,81 @@ type zrState struct {
 func (eng *Engine) initStubs2() {
 	s := eng.stubs
 	eng.initStubsBinary()
+	// strings.Replacer with single-byte patterns (what go-mc uses for SNBT
+	// escaping): exact model; the real implementation builds lookup machinery
+	// through sync.Once and generic tries that only add path explosion.
+	s["strings.NewReplacer"] = func(e *Exec, _ *frame, fn *ssa.Function, args []Value) Value {
+		va := args[0].(Slice)
+		var pairs [][2]*StrV
+		for i := 0; i+1 < len(va.c); i += 2 {
+			o, n := va.c[i].(*StrV), va.c[i+1].(*StrV)
+			if len(o.b) != 1 || !o.b[0].IsConst() {
+				e.unsupported("strings.NewReplacer with a multi-byte or symbolic pattern")
+			}
+			pairs = append(pairs, [2]*StrV{o, n})
+		}
+		t := deref(fn.Signature.Results().At(0).Type())
+		c := new(Value)
+		*c = e.zero(t)
+		if e.replacers == nil {
+			e.replacers = map[*Value][][2]*StrV{}
+		}
+		e.replacers[c] = pairs
+		return Ptr{cell: c}
+	}
+	replace := func(e *Exec, p Ptr, in *StrV) *StrV {
+		pairs := e.replacers[p.cell]
+		var out []*Term
+		for _, b := range in.b {
+			done := false
+			for _, pr := range pairs {
+				if e.Decide(e.tc.Eq(b, pr[0].b[0])) {
+					out = append(out, pr[1].b...)
+					done = true
+					break
+				}
+			}
+			if !done {
+				out = append(out, b)
+			}
+		}
+		return &StrV{b: out}
+	}
+	s["(*strings.Replacer).Replace"] = func(e *Exec, _ *frame, _ *ssa.Function, args []Value) Value {
+		return replace(e, args[0].(Ptr), args[1].(*StrV))
+	}
+	s["(*strings.Replacer).WriteString"] = func(e *Exec, caller *frame, _ *ssa.Function, args []Value) Value {
+		out := replace(e, args[0].(Ptr), args[2].(*StrV))
+		vals := make([]Value, len(out.b))
+		for i, b := range out.b {
+			vals[i] = b
+		}
+		res := e.invoke(caller, args[1].(Iface), "Write", e.newByteSlice(vals)).(Tuple)
+		return res
+	}
+	// number formatting is not the subject of the byte-level properties:
+	// concrete values are formatted exactly, symbolic ones become placeholders
+	s["strconv.FormatInt"] = func(e *Exec, _ *frame, _ *ssa.Function, args []Value) Value {
+		v, b := args[0].(*Term), args[1].(*Term)
+		if v.IsConst() && b.IsConst() {
+			return e.mkStr(strconv.FormatInt(v.SConst(), int(b.k)))
+		}
+		return e.formatSymInt(v, true)
+	}
+	s["strconv.FormatUint"] = func(e *Exec, _ *frame, _ *ssa.Function, args []Value) Value {
+		v, b := args[0].(*Term), args[1].(*Term)
+		if v.IsConst() && b.IsConst() {
+			return e.mkStr(strconv.FormatUint(v.k, int(b.k)))
+		}
+		return e.formatSymInt(v, false)
+	}
+	s["strconv.FormatFloat"] = func(e *Exec, _ *frame, _ *ssa.Function, args []Value) Value {
+		v := args[0].(*Term)
+		if v.IsConst() && args[1].(*Term).IsConst() && args[2].(*Term).IsConst() && args[3].(*Term).IsConst() {
+			return e.mkStr(strconv.FormatFloat(termFloat(v), byte(args[1].(*Term).k), int(args[2].(*Term).SConst()), int(args[3].(*Term).k)))
+		}
+		return e.mkStr("0.5")
+	}
 	eng.initStubsHash()
 	s["net.Dial"] = func(e *Exec, _ *frame, fn *ssa.Function, args []Value) Value {
 		if e.dialConn.t == nil {
@@ -227,4 +303,53 @@ func (eng *Engine) initStubs2() {
 		}
 		return Tuple{e.newByteSlice(in[6 : len(in)-4]), tc.True}
 	}
+}
+
+// formatSymInt renders a symbolic integer in decimal. Within the decimal bound
+// (|v| < 10^5, decided by the solver) the digits are exact (udiv/urem by
+// constants on a 32-bit copy); outside it the result is a placeholder and the
+// path is flagged (number formatting beyond that bound is outside the claims).
+func (e *Exec) formatSymInt(v *Term, signed bool) Value {
+	tc := e.tc
+	v64 := tc.Resize(v, 64, signed)
+	neg := tc.False
+	mag := v64
+	if signed {
+		neg = tc.Cmp(OpSlt, v64, tc.BV(0, 64))
+	}
+	isNeg := false
+	if neg != tc.False {
+		isNeg = e.Decide(neg)
+		if isNeg {
+			mag = tc.Neg(v64)
+		}
+	}
+	small := tc.Cmp(OpUlt, mag, tc.BV(100000, 64))
+	if !e.Decide(small) {
+		e.eng.noteBoundCut(e.h, "decimal formatting of |v| >= 10^5 (placeholder)")
+		if isNeg {
+			return e.mkStr("-100000")
+		}
+		return e.mkStr("100000")
+	}
+	m := tc.Extract(mag, 31, 0)
+	// number of digits by case split
+	nd := 1
+	for _, lim := range []uint64{10, 100, 1000, 10000} {
+		if e.Decide(tc.Cmp(OpUlt, m, tc.BV(lim, 32))) {
+			break
+		}
+		nd++
+	}
+	digits := make([]*Term, nd)
+	x := m
+	for i := nd - 1; i >= 0; i-- {
+		d := tc.Bin(OpURem, x, tc.BV(10, 32))
+		digits[i] = tc.Bin(OpAdd, tc.Extract(d, 7, 0), tc.BV('0', 8))
+		x = tc.Bin(OpUDiv, x, tc.BV(10, 32))
+	}
+	if isNeg {
+		digits = append([]*Term{tc.BV('-', 8)}, digits...)
+	}
+	return &StrV{b: digits}
 }
